@@ -80,6 +80,7 @@ type State struct {
 	nobl     int
 	loopSeen map[*ssa.BasicBlock]bool
 	sliceBase map[string]sliceBaseInfo
+	lastCall  *CallRec
 	strConv   map[string]Term // arrays made by []byte(s): array id -> s (for the extensionality hint of strof)
 	nestedM   bool                 // scratch states: a nested pure interface method call was evaluated
 	msyms     map[string][]msymRec // pure-method symbols declared so far, per method
@@ -93,6 +94,7 @@ type msymRec struct {
 }
 
 // CallRec: one dynamically dispatched call made by this activation
+// (State.lastCall: the call executed last, for lastres/lastarg in anchored ghost updates and assertions)
 type CallRec struct {
 	Args    []Term
 	Results []Term
@@ -144,6 +146,7 @@ func (st *State) clone() *State {
 	}
 	n.calls = append([]CallRec(nil), st.calls...)
 	n.callsLost = st.callsLost
+	n.lastCall = st.lastCall
 	n.strConv = make(map[string]Term, len(st.strConv))
 	for k, v := range st.strConv {
 		n.strConv[k] = v
